@@ -69,6 +69,9 @@ def check(ctx):
     # success-path traces, shared with C02.R1)
     from .storage_common import durable_write_rule
     durable_write_rule(ctx, ctx.rule("D1", "[shared with C02] key and certificate files are opened with truncate/create_new, written and flushed"), ("PrivateKey", "Certificate"))
+    # "a failed attempt leaves the installed pair untouched": nothing outside write_file creates, renames or removes files (C02.R4)
+    from . import c02 as _c02
+    ctx.shared("C02", _c02.writers_rule)
     b = prog.async_body(RC)
     R1 = ctx.rule("R1", "the private key is written only after the download succeeded and no HTTP request follows it before the certificate is written")
     gets = b.calls_to(GETC)
